@@ -220,3 +220,64 @@ Theorem g2tx_abutting_refuted :
   exists ex g, wf ex = false /\ exonic ex g = true /\ g2tx 1 ex g = Err EIntron /\ g2tx (-1) ex g = Ok 9.
 Proof. exists [(10, 20); (20, 30)], 20. vm_compute. repeat split; auto. Qed.
 Print Assumptions g2tx_abutting_refuted.
+
+(* ---- code-level tie (docs/py2coq.md): the function BODIES translated from /repo's current source by
+        harness/translate/py2coq.py (coq/Gen/Py_*.v, regenerated on every run) are extensionally equal to
+        the hand-written model functions the theorems above are about -- for ALL arguments, no
+        well-formedness hypothesis.  A semantic edit of one of these Python functions breaks its equality. ---- *)
+From MoPep Require Gen.Py_TranscriptAnnotationModel Gen.Py_GenomicAnnotation.
+From MoPep Require Import Proofs.Py2CoqProofs.
+
+(* every target function was inside the translator's subset (otherwise a stub is emitted and this fails) *)
+Theorem code_functions_translated :
+  Py_TranscriptAnnotationModel.get_transcript_index_untranslated = false /\
+  Py_TranscriptAnnotationModel.get_cds_start_index_untranslated = false /\
+  Py_GenomicAnnotation.coordinate_transcript_to_genomic_untranslated = false /\
+  Py_GenomicAnnotation.coordinate_genomic_to_gene_untranslated = false /\
+  Py_GenomicAnnotation.coordinate_gene_to_genomic_untranslated = false /\
+  Py_TranscriptAnnotationModel.is_exonic_untranslated = false /\
+  Py_GenomicAnnotation.coordinate_gene_to_transcript_untranslated = false.
+Proof. vm_compute. repeat split. Qed.
+Print Assumptions code_functions_translated.
+
+(* TranscriptAnnotationModel.get_transcript_index (both strand arms, all error paths) *)
+Theorem code_get_transcript_index_is_model : forall st ex g,
+  Py_TranscriptAnnotationModel.get_transcript_index st ex g = g2tx st ex g.
+Proof. exact code_get_transcript_index_is_model_l. Qed.
+Print Assumptions code_get_transcript_index_is_model.
+
+(* GenomicAnnotation.coordinate_transcript_to_genomic *)
+Theorem code_coordinate_transcript_to_genomic_is_model : forall st ex i,
+  Py_GenomicAnnotation.coordinate_transcript_to_genomic st ex i = tx2g st ex i.
+Proof. exact code_coordinate_transcript_to_genomic_is_model_l. Qed.
+Print Assumptions code_coordinate_transcript_to_genomic_is_model.
+
+(* GenomicAnnotation.coordinate_genomic_to_gene / coordinate_gene_to_genomic *)
+Theorem code_coordinate_genomic_to_gene_is_model : forall st gs ge g,
+  Py_GenomicAnnotation.coordinate_genomic_to_gene st gs ge g = g2gene st gs ge g.
+Proof. exact code_coordinate_genomic_to_gene_is_model_l. Qed.
+Print Assumptions code_coordinate_genomic_to_gene_is_model.
+
+Theorem code_coordinate_gene_to_genomic_is_model : forall st gs ge i,
+  Py_GenomicAnnotation.coordinate_gene_to_genomic st gs ge i = gene2g st gs ge i.
+Proof. exact code_coordinate_gene_to_genomic_is_model_l. Qed.
+Print Assumptions code_coordinate_gene_to_genomic_is_model.
+
+(* TranscriptAnnotationModel.get_cds_start_index *)
+Theorem code_get_cds_start_index_is_model : forall st ex cs,
+  Py_TranscriptAnnotationModel.get_cds_start_index st ex cs = cds_start_index st ex cs.
+Proof. exact code_get_cds_start_index_is_model_l. Qed.
+Print Assumptions code_get_cds_start_index_is_model.
+
+(* TranscriptAnnotationModel.is_exonic *)
+Theorem code_is_exonic_is_model : forall ex g,
+  Py_TranscriptAnnotationModel.is_exonic ex g = exonic ex g.
+Proof. exact code_is_exonic_is_model_l. Qed.
+Print Assumptions code_is_exonic_is_model.
+
+(* GenomicAnnotation.coordinate_gene_to_transcript: its calls of coordinate_gene_to_genomic and
+   get_transcript_index are mapped to gene2g / g2tx, which the obligations above tie to their own code *)
+Theorem code_coordinate_gene_to_transcript_is_model : forall gst gs ge member tst ex i,
+  Py_GenomicAnnotation.coordinate_gene_to_transcript gst gs ge member tst ex i = gene2tx gst gs ge member tst ex i.
+Proof. exact code_coordinate_gene_to_transcript_is_model_l. Qed.
+Print Assumptions code_coordinate_gene_to_transcript_is_model.
